@@ -45,6 +45,9 @@ package types
 //@ requires [updates_present] forall j in [0, len(updates)) :: updates[j] != nil && updates[j].LastUpdateTime != nil
 //@ requires [caller_holds_the_cache_lock] locked()
 //@ ensures [lock_still_held] locked() && lockcount() == old(lockcount())
+//@ ensures [every_update_is_offered_to_its_entry_with_its_price_and_time] len(updates) > 0 ==> called(UpdatePrice) && arg(UpdatePrice, price) == updates[len(updates) - 1].Price && arg(UpdatePrice, newUpdateTime) == updates[len(updates) - 1].LastUpdateTime
+//@ loop 0 "for _, exchangePrice := range updates"
+//@ loop 0 invariant [every_update_so_far_was_offered_to_its_entry] $i > 0 ==> called(UpdatePrice) && arg(UpdatePrice, price) == updates[$i - 1].Price && arg(UpdatePrice, newUpdateTime) == updates[$i - 1].LastUpdateTime
 
 //@ func (etp *ExchangeToPrice).GetValidPrices(cutoffTime) (prices)
 //@ requires [receiver_present] etp != nil
